@@ -916,18 +916,22 @@ where
     }
 }
 
+// A node is an `Arc` around its key, value and adjacency lists: every clone,
+// on whatever thread, reaches the same key, value and edge values by shared
+// reference.  Sending a node therefore shares them, so both impls need the
+// payload types to be `Send` *and* `Sync` (the bounds `Arc<T>` itself has).
 unsafe impl<K, N, E> Send for Node<K, N, E>
 where
-    K: Clone + Hash + Display + PartialEq + Eq + Send,
-    N: Clone + Send,
-    E: Clone + Send,
+    K: Clone + Hash + Display + PartialEq + Eq + Send + Sync,
+    N: Clone + Send + Sync,
+    E: Clone + Send + Sync,
 {
 }
 
 unsafe impl<K, N, E> Sync for Node<K, N, E>
 where
-    K: Clone + Hash + Display + PartialEq + Eq + Sync,
-    N: Clone + Sync,
-    E: Clone + Sync,
+    K: Clone + Hash + Display + PartialEq + Eq + Send + Sync,
+    N: Clone + Send + Sync,
+    E: Clone + Send + Sync,
 {
 }
